@@ -240,6 +240,11 @@ func mirrorKW(mc *mwCase, twoUs int) *big.Rat {
 
 // ---- UDist ----
 
+var (
+	udistPrevT = map[[3]int][]int{}
+	udistBuf   = make([]int, 64)
+)
+
 func udistReplay(in io.Reader, raw bool, args []string) (*Summary, error) {
 	sum := &Summary{Rule: "one case per (tie vector, N1) emitted by TLC with the exact count vector; UDist{N1,N2,T}.PMF and CDF are evaluated at every half-integer from -1 to N1*N2+1 (PMF at integers only when there are no ties) and CDF at off-grid points, against the exact rationals; T=nil is used as well when all counts are 1; non-trivial = both N1,N2 >= 1 and at least two ranks"}
 	err := forEachCase(in, raw, func(c json.RawMessage) {
@@ -271,6 +276,32 @@ func udistReplay(in io.Reader, raw bool, args []string) (*Summary, error) {
 			if t > 1 {
 				ties = true
 			}
+		}
+		// one tie-vector buffer reused for successive distributions, as a caller sweeping over tie vectors would: evaluate with
+		// the previous vector of the same shape in the buffer, overwrite the buffer in place, evaluate again at the same U
+		if ties {
+			key := [3]int{mc.N1, mc.N2, len(mc.T)}
+			if prev, ok := udistPrevT[key]; ok && !intsEq(prev, mc.T) {
+				buf := udistBuf[:len(mc.T)]
+				for _, tu := range []int{top / 2, top / 3, top - 1} {
+					if tu < 0 || tu > top {
+						continue
+					}
+					u := float64(tu) / 2
+					copy(buf, prev)
+					d := stats.UDist{N1: mc.N1, N2: mc.N2, T: buf}
+					_, _ = d.CDF(u), d.PMF(u)
+					copy(buf, mc.T)
+					sum.Checks++
+					gotC, gotP := d.CDF(u), d.PMF(u)
+					wantC := new(big.Rat).SetFrac(big.NewInt(mc.LE[tu]), den)
+					wantP := new(big.Rat).SetFrac(big.NewInt(mc.Cnt[tu]), den)
+					if !closeRat(gotC, wantC, 1e-12, 1e-9) || !closeRat(gotP, wantP, 1e-12, 1e-9) {
+						sum.viol("CDF-reused-buffer", c, "T=%v written over %v in the same slice: CDF(%v)=%.12g PMF=%.12g want %.12g %.12g", mc.T, prev, u, gotC, gotP, rf(wantC), rf(wantP))
+					}
+				}
+			}
+			udistPrevT[key] = append([]int{}, mc.T...)
 		}
 		dists := []stats.UDist{{N1: mc.N1, N2: mc.N2, T: append([]int{}, mc.T...)}}
 		if !ties {
